@@ -48,6 +48,19 @@ __all__ = [
 logger = get_module_logger('distributions')
 
 
+def _next_float_open(stream: StreamInterface) -> float:
+    """
+    Return the next number of the stream that lies in the open interval 
+    (0, 1). A stream delivers numbers in [0, 1); where a sampler takes the 
+    logarithm of the uniform number, a value of exactly 0.0 cannot be used 
+    and the next number of the stream is taken instead.
+    """
+    u: float = stream.next_float()
+    while u == 0.0:
+        u = stream.next_float()
+    return u
+
+
 class Distribution(ABC):
     """
     The Distribution defines the interface for both discrete and continuous
@@ -524,7 +537,7 @@ class DistErlang(DistContinuous):
             # repeated drawing and composition is usually faster for k<=10
             product: float = 1.0
             for _ in range(self._k):
-                product *= self._stream.next_float()
+                product *= _next_float_open(self._stream)
             return -self._scale * math.log(product)
         return self._dist_gamma.draw()
 
@@ -604,7 +617,7 @@ class DistExponential(DistContinuous):
         """
         Draw a value from the Exponential distribution.
         """
-        return -self._mean * math.log(self._stream.next_float())
+        return -self._mean * math.log(_next_float_open(self._stream))
 
     def probability_density(self, x: float) -> float:
         """Returns the probability density value for value x."""
@@ -704,7 +717,7 @@ class DistGamma(DistContinuous):
             counter: int = 0
             while counter < 1000:
                 #  step 1.
-                u1: float = self._stream.next_float()
+                u1: float = _next_float_open(self._stream)
                 u2: float = self._stream.next_float()
                 #  step 2.
                 v = a * math.log(u1 / (1.0 - u1))
@@ -723,7 +736,7 @@ class DistGamma(DistContinuous):
         else:
             #  shape == 1.0
             #  Gamma(1.0, scale) ~ exponential with mean = scale
-            return -self._scale * math.log(self._stream.next_float())
+            return -self._scale * math.log(_next_float_open(self._stream))
 
     def probability_density(self, x: float) -> float:
         """Returns the probability density value for value x."""
@@ -796,7 +809,7 @@ class DistGeometric(DistDiscrete):
         the number of failures of independent Bernoulli trials until the
         first success.
         """
-        u = self._stream.next_float()
+        u = _next_float_open(self._stream)
         return math.floor(math.log(u) / self._lnp)
 
     def probability(self, observation: int) -> float:
@@ -872,7 +885,7 @@ class DistNegBinomial(DistDiscrete):
         """
         x: int = 0
         for _ in range(self._s):
-            u = self._stream.next_float()
+            u = _next_float_open(self._stream)
             x += math.floor(math.log(u) / self._lnp)
         return x
 
@@ -1748,7 +1761,7 @@ class DistWeibull(DistContinuous):
         """
         Draw a value from the Weibull distribution.
         """
-        return (self._beta * math.pow(-math.log(self._stream.next_float()), 
+        return (self._beta * math.pow(-math.log(_next_float_open(self._stream)), 
                                       1.0 / self._alpha))
 
     def probability_density(self, x: float) -> float:
